@@ -39,7 +39,7 @@ def source(c, t):
 def linear_rule(run, f, rid):
     run.rule(rid, "by-value item is moved into exactly one sink on every path of each push fn; a popped item is returned or re-pushed, never dropped", floor=10, template="T1/T5 (P3 linear walker)")
     for fn, pname in sorted(PUSH_FNS.items()):
-        b = need(run, rid, f, fn)
+        b = unit(run, rid, f, fn)       # closures handed to combinators (`filter_map(|_| pop()).for_each(|i| push(i))`) are part of it
         if b is None:
             continue
         item = [l for l in range(1, b.argc + 1) if b.name_of(l) == pname]
@@ -59,7 +59,7 @@ def linear_rule(run, f, rid):
         else:
             run.ok(rid, fn + "/item", {"exits": len(lw.exits), "states": lw.visited})
     for fn in POP_FNS:
-        b = need(run, rid, f, fn)
+        b = unit(run, rid, f, fn)       # `from_shared.or_else(|| self.queue.pop())` is the same two-step lookup
         if b is None:
             continue
         lw = Linear(b, [], source, sink, ret_is_sink=True, transparent=lambda c, t: False)
